@@ -613,6 +613,7 @@ def oracle_world(w):
     seen_effect = {}     # (client, event) -> True once a delivery of it was handled with effect
     prev_fp = {}
     gnf_first = {}       # (client, event) -> step at which the event was refused as GroupNotFound because its tag was not the id in force
+    evicted_at = {}      # client -> (step at which it processed its own removal, number of message rows then)
     w.gnf_first = gnf_first
     copy_knock = set()   # clients at which a copy of a commit (same ciphertext, another wrapper) invalidated stored messages / records
     for i, (cmd, res, fp) in enumerate(w.trace):
@@ -733,6 +734,19 @@ def oracle_world(w):
                     fail("C07", "redelivery-changed-state", i, f"re-delivering event {t[2]} (record {rec}) changed the projection: {proj(before)} -> {proj(f)}")
                 if not is_refusal(r0):
                     seen_effect[key] = True
+        if c is not None and f is not None:
+            # C03: "once a client has processed its own removal the group is inactive for it and it can neither read nor send there" —
+            # whatever it is fed afterwards (a stale commit that would have won the race against its removal included)
+            old3 = prev_fp.get(c)
+            if old3 is not None and old3["state"] == "a" and f["state"] == "i" and t[0] == "deliver":
+                evicted_at[c] = (i, len(f["msgs"]))
+            elif c in evicted_at:
+                if f["state"] == "a":
+                    fail("C03", "evicted-client-active-again", i, f"`{cmd}`: c{c} had processed its own removal (step {evicted_at[c][0]}) and holds the group as Active again: {res.split()[0]}")
+                    evicted_at.pop(c)
+                elif len(f["msgs"]) > evicted_at[c][1]:
+                    fail("C03", "evicted-client-reads", i, f"`{cmd}`: c{c} had processed its own removal (step {evicted_at[c][0]}) and stored another message")
+                    evicted_at[c] = (evicted_at[c][0], len(f["msgs"]))
         if c is not None:
             old = prev_fp.get(c)
             if old is not None and f is not None and f["epoch"] < old["epoch"]:
